@@ -56,6 +56,7 @@ type G struct {
 	ctr      uint64 // soft yield counter
 	loopCtr  uint64 // map iteration counter
 	uuidCtr  uint64
+	selCtr   uint64
 	spawnCtr map[string]int
 	kids     map[string]int // fallback ordinal for children discovered through stacks
 	unmanaged bool
@@ -664,4 +665,15 @@ func Atomic(f func()) {
 	g.atomic++
 	defer func() { g.atomic-- }()
 	f()
+}
+
+// SelectFlip decides the priority order among the cases of a rewritten select
+// (R7): a pure function of (seed, goroutine, per-goroutine count).
+func SelectFlip(site string) bool {
+	g, s := self()
+	if g == nil || g.unmanaged || s == nil {
+		return false
+	}
+	g.selCtr++
+	return hash64(s.Cfg.Seed, "sel", g.ID, strconv.FormatUint(g.selCtr, 10))&1 == 1
 }
